@@ -214,6 +214,8 @@ class Emit:
             b = x[1]
             if b[0] == "path" and "::".join(b[1]) in self.index:
                 return "(" + self.index["::".join(b[1])].format(self.atom(x[2])) + ")"
+            if x[2][0] == "range" and x[2][2] is None:       # `&v[a..]`
+                return "(List.drop %s %s)" % (self.atom(x[2][1]), self.atom(b))
             if self.cfg.get("imperative"):
                 return "%s[%s]!" % (self.atom(b), self.e(x[2]))
             raise Unsupported("indexing")
@@ -237,6 +239,9 @@ class Emit:
             name = x[1][-1]
             if name == "Self":
                 name = self.cfg.get("Self", name)
+            if name in self.cfg.get("struct", {}):
+                ty, fmap = self.cfg["struct"][name]
+                return "({ " + ", ".join("%s := %s" % (fmap[fn], self.e(fe)) for fn, fe in x[2]) + " } : " + ty + ")"
             if name not in STRUCT:
                 raise Unsupported("struct literal " + name)
             if STRUCT[name] is None:
@@ -277,6 +282,10 @@ class Emit:
             elif x[0] == "mcall" and (x[2] in ("push", "pop", "push_back", "pop_front") or x[2] in self.cfg.get("mutmethods", {})) \
                     and self.lhs_name(x[1]) is not None:
                 add(self.lhs_name(x[1]))
+            elif self.foreach_target(x) is not None:
+                add(self.foreach_target(x)[0])
+            elif x[0] == "mcall" and x[2] in self.cfg.get("selfmut", {}) and x[1] == ("path", ["self"]):
+                add(self.lhs_name(x[3][self.cfg["selfmut"][x[2]][0]]))
             elif x[0] == "for":
                 for v in self.assigned(self.as_stmts(x[3])):
                     add(v)
@@ -291,6 +300,17 @@ class Emit:
             else:
                 walk(s[1])
         return out
+
+    def foreach_target(self, x):
+        """`V.iter_mut().for_each(<closure>)` where the closure is one of the reviewed element updates of the configuration
+        (compared as syntax trees): (V, lean function) - anything else is not recognised (and then Unsupported)"""
+        if x[0] == "mcall" and x[2] == "for_each" and len(x[3]) == 1 and x[1][0] == "mcall" and x[1][2] == "iter_mut" \
+                and self.lhs_name(x[1][1]) is not None:
+            from rustexpr import P, tokenize
+            for src, fn in self.cfg.get("foreach", {}).items():
+                if P(tokenize(src)).expr() == x[3][0]:
+                    return self.lhs_name(x[1][1]), fn
+        return None
 
     def as_stmts(self, blk):
         """statements of a unit-valued block (a trailing `for`/`if` is a statement); an `else if` is one statement"""
@@ -342,6 +362,13 @@ class Emit:
             t = self.tup(w)
             return "let %s := (List.foldl (fun %s (%s, %s) => (%s)) %s (List.zipIdx %s));\n    %s" % (
                 t, t, self.pat(x[1][1][1]), self.pat(x[1][1][0]), self.imp(body, t), t, self.atom(x[2][1][1]), tailstr())
+        if self.foreach_target(x) is not None:
+            v, fn = self.foreach_target(x)
+            return "let %s := (List.map %s %s);\n    %s" % (v, fn, v, tailstr())
+        if x[0] == "mcall" and x[2] in self.cfg.get("selfmut", {}) and x[1] == ("path", ["self"]):
+            argi, tmpl = self.cfg["selfmut"][x[2]]
+            v = self.lhs_name(x[3][argi])
+            return "let %s := (%s);\n    %s" % (v, tmpl.format(*[self.atom(a) for a in x[3]]), tailstr())
         if x[0] == "for" and x[2][0] != "range":
             # `for <pattern> in <list expression>`: a fold over the list
             body = self.as_stmts(x[3])
@@ -362,6 +389,10 @@ class Emit:
             a, b = self.e(x[2][1]), self.e(x[2][2])
             return "let %s := (List.foldl (fun %s %s => (%s)) %s (List.range' %s (%s - %s)));\n    %s" % (
                 t, t, ident(x[1][1]), self.imp(body, t), t, a, b, a, tailstr())
+        if x[0] == "if" and x[3] is None and [t[1] for t in self.as_stmts(x[2])] == [("path", ["continue"])]:
+            # `if c { continue; }` inside a loop body: the rest of the body runs only when `c` is false
+            # (`result` is the tuple of the loop-carried variables, which is what an iteration yields)
+            return "(if %s then %s else (%s))" % (self.e(x[1]), result, tailstr())
         if x[0] == "if":
             thn = self.as_stmts(x[2])
             els = self.as_stmts(x[3]) if x[3] is not None else []
@@ -389,6 +420,9 @@ class Emit:
         if x[0] == "field":
             b = self.dotted(x[1])
             return None if b is None else b + "." + x[2]
+        if x[0] == "mcall" and not x[3]:                 # a place reached through an accessor: `observation.feature_mut()`
+            b = self.dotted(x[1])
+            return None if b is None else b + "." + x[2] + "()"
         return None
 
     def atom(self, x):
@@ -486,6 +520,13 @@ KERNELS = [
          fieldpath={"self.opts.visual_minimal_area": "visual_minimal_area"},
          method={"area": "area {0}", "map": "Option.map {1} {0}"},
          macro={"unreachable": "true"}),
+    dict(group="VMetric", name="v_collect_gate", file="trackers/visual_sort/metric.rs",
+         impl=r"impl ObservationMetric<VisualAttributes, VisualObservationAttributes> for VisualMetric \{", fn="optimize",
+         sig="{φ : Type} (visual_minimal_area visual_minimal_quality_collect visual_minimal_own_area_percentage_collect : α) (is_merge : Bool)\n    (observation_bbox : UBox α) (feature_quality : α) (own_area_percentage_opt : Option α) (observation_feature : Option φ) : Option φ",
+         imperative=True, result="observation_feature", pick=lambda st: [x for x in st if x[0] == "expr" and x[1][0] == "if" and "is_merge" in repr(x[1][1])],
+         fieldpath={"observation.feature_mut()": "observation_feature", "self.opts.visual_minimal_quality_collect": "visual_minimal_quality_collect",
+                    "self.opts.visual_minimal_own_area_percentage_collect": "visual_minimal_own_area_percentage_collect"},
+         method={"feature_can_be_used": "v_feature_can_be_used visual_minimal_area {1} {2} {3} {4} {5}"}),
     dict(group="VMetric", name="v_visual_metric", file="trackers/visual_sort/metric.rs", impl=r"impl VisualMetric \{", fn="visual_metric",
          sig="(euclidean cosine : F → F → α) (visual_kind : VisualMetric.Kind α) (visual_minimal_track_length collected : Nat)\n    (candidate_observation_feature track_observation_feature : F) : Option α",
          fieldpath={"self.opts.visual_kind": "visual_kind", "self.opts.visual_minimal_track_length": "visual_minimal_track_length",
@@ -503,7 +544,13 @@ KERNELS = [
          pctor={"PositionalMetricType::Mahalanobis": "PosMetric.maha", "PositionalMetricType::IoU": "PosMetric.iou"}),
 ]
 
+
+NMS_METHOD = {"unwrap_or": "Option.getD {0} {1}", "iter": "{0}", "into_iter": "{0}", "collect": "{0}", "filter": "List.filter {1} {0}",
+              "map": "List.map {1} {0}", "enumerate": "enumerateL {0}", "sorted_by": "List.mergeSort {0} (fun a b => ({1} a b) != Ordering.gt)",
+              "partial_cmp": "cmpQ {0} {1}", "unwrap": "{0}", "contains": "List.contains {0} {1}", "area": "area {0}"}
 # decision kernels over Nat / Rat (no field structure needed)
+GAL_METHOD = {"feature": "featureOf {0}", "attr": "{0}", "as_ref": "{0}", "unwrap": "{0}", "visual_quality": "quality {0}",
+                 "partial_cmp": "cmpQ {0} {1}", "len": "List.length {0}", "iter": "{0}", "filter": "List.filter {1} {0}", "count": "List.length {0}"}
 LOGIC = [
     dict(group="Epoch", name="epoch_baked", file="trackers/epoch_db.rs", impl=r"trait EpochDb[^{]*\{", fn="baked",
          sig="(epochs : Option (List (Nat × Nat))) (maxIdle : Nat) (scene_id last_updated : Nat) : Status",
@@ -517,6 +564,28 @@ LOGIC = [
          sig="(self_constraints constraints : List (Nat × Rat)) : List (Nat × Rat)", imperative=True, result="self_constraints",
          fieldpath={"self.constraints": "self_constraints"}, method={"cmp": "compare {0} {1}"},
          mutmethods={"sort_by": "List.mergeSort {0} (fun a b => ({1} a b) != Ordering.gt)", "dedup_by": "dedupBy {1} {0}"}),
+    dict(group="Gallery", name="optimize_observations", file="trackers/visual_sort/metric.rs", impl=r"impl VisualMetric \{", fn="optimize_observations",
+         sig="{Obs φ : Type} (featureOf : Obs → Option φ) (dropBbox : Obs → Obs) (quality : Obs → Rat) (visual_max_observations : Nat) (observations : List Obs) : List Obs",
+         imperative=True, result="observations", fieldpath={"self.opts.visual_max_observations": "visual_max_observations"},
+         method=GAL_METHOD,
+         foreach={"|f| { if let Some(e) = &mut f.attr_mut() { e.drop_bbox(); } }": "dropBbox"},
+         mutmethods={"retain": "List.filter {1} {0}", "truncate": "List.take {1} {0}",
+                     "sort_by": "List.mergeSort {0} (fun a b => ({1} a b) != Ordering.gt)"}),
+    dict(group="Gallery", name="optimize_tail", file="trackers/visual_sort/metric.rs",
+         impl=r"impl ObservationMetric<VisualAttributes, VisualObservationAttributes> for VisualMetric \{", fn="optimize",
+         sig="{Obs φ : Type} (featureOf : Obs → Option φ) (dropBbox : Obs → Obs) (quality : Obs → Rat) (visual_max_observations : Nat) (observations : List Obs) (observation : Obs) (collected : Nat) : List Obs × Nat",
+         imperative=True, result="(observations, collected)", pick=lambda st: st[next((i for i, x in enumerate(st) if "optimize_observations" in repr(x)), len(st)):],
+         fieldpath={"attrs.visual_features_collected_count": "collected"}, method=GAL_METHOD,
+         selfmut={"optimize_observations": (0, "optimize_observations featureOf dropBbox quality visual_max_observations {0}")},
+         mutmethods={"swap": "listSwap {0} {1} {2}"}),
+    dict(group="Nms", name="candidate_new", file="utils/nms.rs", impl=r"impl<'a> Candidate<'a> \{", fn="new",
+         sig="{β : Type} (bbox : NBox β) (rank : Option Rat) (index : Nat) : Candidate β", Self="Candidate",
+         struct={"Candidate": ("Candidate β", {"bbox": "bbox", "rank": "rank", "index": "index"})}, method=NMS_METHOD),
+    dict(group="Nms", name="nms", file="utils/nms.rs", impl=None, fn="nms",
+         sig="{β : Type} (inter : NBox β → NBox β → Rat) (area : NBox β → Rat) (detections : List (NBox β × Option Rat)) (nms_threshold : Rat) (score_threshold : Option Rat) : List (NBox β)",
+         imperative=True, method=NMS_METHOD, path={"f32::MIN": "F32_MIN", "f32::MAX": "F32_MAX"},
+         call={"Candidate::new": "candidate_new {0} {1} {2}", "HashSet::new": "([] : List Nat)", "Universal2DBox::intersection": "inter {0} {1}"},
+         mutmethods={"insert": "{1} :: {0}"}),
     dict(group="Compat", name="sort_compatible", file="trackers/sort.rs", impl=r"impl TrackAttributes<SortAttributes, Universal2DBox> for SortAttributes \{", fn="compatible",
          sig="(constraints : List (Nat × Rat)) (maxIdle : Nat) (selfScene otherScene selfLast otherLast : Nat) (centerDist : Rat) : Bool",
          fieldpath={"self.scene_id": "selfScene", "other.scene_id": "otherScene", "self.last_updated_epoch": "selfLast",
@@ -573,6 +642,11 @@ def gen(repo, cfgs, header, footer):
             text = open(path).read()
             # drop test modules so that helper fns of the same name in tests are not picked up
             params, body = parse_fn(text, c["fn"], c.get("impl"), c.get("occurrence", 0))
+            if "pick" in c:                               # a slice of the body: the statements the configuration selects
+                sel = c["pick"](list(body[1]) + ([("expr", body[2])] if body[2] is not None and not (body[2][0] == "call" and body[2][1] == ("path", ["Ok"])) else []))
+                if not sel:
+                    raise Unsupported("the statements to translate were not found")
+                body = ("block", sel, None)
             lean = Emit(c).imperative(body) if c.get("imperative") else Emit(c).block(body)
             out.append("/-- src/%s `%s` -/\ndef %s %s :=\n  %s\n" % (c["file"], c["fn"], c["name"], c["sig"], lean))
         except (Unsupported, OSError, KeyError, IndexError, ValueError) as ex:
@@ -598,6 +672,32 @@ PRELUDE_EPOCH = """inductive Status where | ready | pending | wasted
 deriving DecidableEq, Repr
 /-- `HashMap::get` on the scene -> epoch table -/
 def lookupEpoch (m : List (Nat × Nat)) (k : Nat) : Option Nat := (m.find? (fun p => p.1 == k)).map (·.2)
+"""
+PRELUDE_SWAP = """/-- `f32::partial_cmp(..).unwrap()` on comparable (non-NaN) values -/
+def cmpQ (a b : Rat) : Ordering := if a < b then .lt else if b < a then .gt else .eq
+/-- `slice::swap(i, j)` (indices in range: the code pushes an element first) -/
+def listSwap {α : Type} (l : List α) (i j : Nat) : List α :=
+  match l[i]?, l[j]? with
+  | some a, some b => (l.set i b).set j a
+  | _, _ => l
+"""
+PRELUDE_NMS = """/-- `f32::MAX`, `f32::MIN` as exact rationals -/
+def F32_MAX : Rat := ((2 ^ 24 - 1 : Nat) : Rat) * ((2 ^ 104 : Nat) : Rat)
+def F32_MIN : Rat := -F32_MAX
+/-- `f32::partial_cmp(..).unwrap()` on comparable (non-NaN) values -/
+def cmpQ (a b : Rat) : Ordering := if a < b then .lt else if b < a then .gt else .eq
+/-- `Iterator::enumerate`: (index, item) -/
+def enumerateL {α : Type} (l : List α) : List (Nat × α) := l.zipIdx.map (fun p => (p.2, p.1))
+/-- what `nms` reads of a `Universal2DBox`: the two fields of the validity filter (everything else only through `intersection` / `area`) -/
+structure NBox (β : Type) where
+  item : β
+  height : Rat
+  aspect : Rat
+/-- `struct Candidate` -/
+structure Candidate (β : Type) where
+  bbox : NBox β
+  rank : Rat
+  index : Nat
 """
 PRELUDE_DEDUP = """/-- `Vec::dedup_by(same)`: `same(a, b)` is called with `a` the later element and `b` the last retained one; `a` is dropped when it holds -/
 def dedupByAux {α : Type} (same : α → α → Bool) (prev : α) : List α → List α
@@ -628,6 +728,8 @@ def main():
         jobs.append(("K" + g + ".lean", [c for c in KERNELS if c["group"] == g], HEADER_K % K_IMPORTS.get(g, "") + K_PRELUDE.get(g, ""), "SimVerif.Gen.K"))
     jobs.append(("LEpoch.lean", [c for c in LOGIC if c["group"] == "Epoch"], HEADER_L + PRELUDE_EPOCH, "SimVerif.Gen.L"))
     jobs.append(("LConstr.lean", [c for c in LOGIC if c["group"] == "Constr"], HEADER_L + PRELUDE_DEDUP, "SimVerif.Gen.L"))
+    jobs.append(("LGallery.lean", [c for c in LOGIC if c["group"] == "Gallery"], HEADER_L + PRELUDE_SWAP, "SimVerif.Gen.L"))
+    jobs.append(("LNms.lean", [c for c in LOGIC if c["group"] == "Nms"], HEADER_L + PRELUDE_NMS, "SimVerif.Gen.L"))
     jobs.append(("LAttr.lean", [c for c in LOGIC if c["group"] == "Attr"], HEADER_L, "SimVerif.Gen.L"))
     jobs.append(("LCompat.lean", [c for c in LOGIC if c["group"] == "Compat"], "import SimVerif.Gen.LConstr\n" + HEADER_L, "SimVerif.Gen.L"))
     for fname, cfgs, hdr, ns in jobs:
